@@ -24,6 +24,7 @@ EXPLANATION = (
     "proven in range from the length facts of its path and nothing but Partial/Rejected can escape; (R5) the CRC routine has "
     "the CRC-16/MODBUS parameters. Decides these clauses for all paths; does not decide CRC arithmetic per byte string."
     ' R1 also includes the binding clause shared with C09.R4: _send_request binds self.command / self.response_future to its arguments before the transport write on every path, so the validator consulted at receive time is the one of the request in flight.'
+    " (R1, foreign-writer) no code outside the protocol classes' own methods assigns command / response_future / the fragment buffer / the timer of a protocol object."
 )
 
 
